@@ -1,5 +1,6 @@
 import SqlgrepModel.Lemmas.ExtractJson
 import SqlgrepModel.Lemmas.JsonDoc
+import SqlgrepModel.Lemmas.JsonDocPath
 /-
 C02 — JSON-path extraction yields exactly the addressed JSON value, typed.
 
@@ -331,6 +332,313 @@ theorem json_real_is_nearest (o : Oracles) (d : TableDef) (lo : LineOracle) (c :
   simp only [Bool.false_eq_true, if_false]
   rw [applyTrim_real]
 
+/-! ### which NUMBER a JSON number literal becomes ("INT only from integers within 64 bits, REAL from any number")
+
+The statements above take the number node as serde_json classified it. These start from the LITERAL: a text `lex`
+that the RFC 8259 grammar derives from `number` with the denotation `d = mant · 10^exp` (`JsonGrammar.NumD lex d`;
+`C17Json.isJsonNumber_exact`: `numValue` decides it), and say what `JsonDoc.serdeNumber` — the function `docOfLine`
+executes for every number of a line — makes of it, and what an INT / REAL column then holds. -/
+
+open JsonGrammar in
+/-- **number_literal_real (M1 a, L1).** For EVERY number literal — integer literals of any length, fractions,
+exponents — read as REAL (`as_f64`, which is what a REAL column takes):
+* if the magnitude `|mant| · 10^exp` rounds to infinity the literal is no number at all (serde_json's
+  `NumberOutOfRange`; the whole line is then not JSON: `out_of_range_literal_line_is_default`);
+* otherwise the REAL is the nearest REAL of the literal's exact decimal value, `JsonDoc.nearestReal d`
+  (`nearestReal_is_nearest`), for every literal but the zeros written with a minus — `-0`, `-0.0`, `-0e3` —, whose REAL
+  is `-0.0`: the sign of a zero is the sign of the text (the denotation `⟨0, e⟩` has none). -/
+theorem number_literal_real {lex : List Char} {d : Dec} (h : NumD lex d) :
+    (DecFloat.decToF64 false d.mant.natAbs d.exp = DecFloat.infBits → JsonDoc.serdeNumber lex = none) ∧
+    (DecFloat.decToF64 false d.mant.natAbs d.exp ≠ DecFloat.infBits →
+      ∃ n, JsonDoc.serdeNumber lex = some n ∧
+        (Json.num n).asF64 =
+          some (if JsonDoc.lexNeg lex = true ∧ d.mant = 0 then DecFloat.signMask else JsonDoc.nearestReal d) ∧
+        convertFromJson .real (.num n) =
+          .real (if JsonDoc.lexNeg lex = true ∧ d.mant = 0 then DecFloat.signMask else JsonDoc.nearestReal d)) := by
+  refine ⟨(JsonDoc.serdeNumber_none_iff h).2, fun hfin => ?_⟩
+  cases hs : JsonDoc.serdeNumber lex with
+  | none => exact absurd ((JsonDoc.serdeNumber_none_iff h).1 hs) hfin
+  | some n =>
+    refine ⟨n, rfl, ?_, ?_⟩
+    · rw [JsonDoc.serdeNumber_asF64 h n hs, JsonDoc.litReal_eq h]
+    · rw [JsonDoc.real_of_literal h n hs, JsonDoc.litReal_eq h]
+
+/-- `nearestReal d` is THE nearest REAL: its sign bit is the sign of `d`, its magnitude is `decToF64` of `|d|`, and
+when that is finite no REAL `y` is closer to `|mant| · 10^exp` (distances in units of 2^-1074 over the common
+denominator; a tie goes to the even mantissa: `DecFloat.decToF64_tie_even`) -/
+theorem nearestReal_is_nearest (d : JsonGrammar.Dec) :
+    JsonDoc.nearestReal d = (if d.mant < 0 then DecFloat.signMask else 0) + DecFloat.decToF64 false d.mant.natAbs d.exp ∧
+    (DecFloat.decToF64 false d.mant.natAbs d.exp ≠ DecFloat.infBits →
+      F64.isFinite (DecFloat.decToF64 false d.mant.natAbs d.exp) = true ∧
+      ∀ y, DecFloat.adist (DecFloat.numOf d.mant.natAbs d.exp * DecFloat.unitScale)
+              (F64.umag (DecFloat.decToF64 false d.mant.natAbs d.exp) * DecFloat.denOf d.exp) ≤
+           DecFloat.adist (DecFloat.numOf d.mant.natAbs d.exp * DecFloat.unitScale) (F64.umag y * DecFloat.denOf d.exp)) := by
+  constructor
+  · unfold JsonDoc.nearestReal
+    by_cases hneg : d.mant < 0
+    · simp only [hneg, decide_true, if_true]; exact DecFloat.decToF64_neg _ _
+    · simp only [hneg, decide_false, if_false, Nat.zero_add]
+  · intro hfin
+    exact ⟨(DecFloat.decToF64_nearest _ _ 0 hfin).1, fun y => (DecFloat.decToF64_nearest _ _ y hfin).2⟩
+
+open JsonGrammar in
+/-- a literal is out of range exactly when its exact value is at least `(2^54 − 1) · 2^970 = 2^1024 − 2^970`, the
+IEEE-754 overflow threshold (half a unit in the last place above the largest finite REAL) -/
+theorem number_literal_out_of_range_iff {lex : List Char} {d : Dec} (h : NumD lex d) :
+    JsonDoc.serdeNumber lex = none ↔
+      (2 ^ 54 - 1) * DecFloat.topHalfUlp * DecFloat.denOf d.exp ≤ DecFloat.numOf d.mant.natAbs d.exp * DecFloat.unitScale := by
+  rw [JsonDoc.serdeNumber_none_iff h, DecFloat.decToF64_overflow_iff]
+
+open JsonGrammar in
+/-- **number_literal_classification (M1 b).** serde_json's three kinds of number, from the literal:
+* `PosInt(n)` exactly for an integer literal (no fraction, no exponent: `integer_literal_iff`) without a minus sign whose
+  value `n ≤ u64::MAX`;
+* `NegInt(n)` exactly for an integer literal of negative value `n ≥ i64::MIN`;
+* `Float` for every other literal in range: a fraction or an exponent makes a float even when the value is integral
+  (`1.0`, `1e2`), so does an integer literal above `u64::MAX` or below `i64::MIN`, and so does `-0`;
+and an integer literal that fits `u64` is never out of range. -/
+theorem number_literal_classification {lex : List Char} {d : Dec} (h : NumD lex d) :
+    (∀ u f, JsonDoc.serdeNumber lex = some (.posInt u f) ↔
+      JsonDoc.isIntLiteral lex = true ∧ JsonDoc.lexNeg lex = false ∧ d.mant = (u : Int) ∧ u ≤ JsonDoc.u64Max ∧
+        f = JsonDoc.realOfDec false d) ∧
+    (∀ m f, JsonDoc.serdeNumber lex = some (.negInt m f) ↔
+      JsonDoc.isIntLiteral lex = true ∧ d.mant = m ∧ m < 0 ∧ -9223372036854775808 ≤ m ∧ f = JsonDoc.realOfDec true d) ∧
+    (∀ b, JsonDoc.serdeNumber lex = some (.float b) ↔
+      DecFloat.decToF64 false d.mant.natAbs d.exp ≠ DecFloat.infBits ∧ b = JsonDoc.realOfDec (JsonDoc.lexNeg lex) d ∧
+        ¬ (JsonDoc.isIntLiteral lex = true ∧ JsonDoc.lexNeg lex = false ∧ d.mant ≤ (JsonDoc.u64Max : Int)) ∧
+        ¬ (JsonDoc.isIntLiteral lex = true ∧ d.mant < 0 ∧ -9223372036854775808 ≤ d.mant)) := by
+  have hs := JsonDoc.lexNeg_of_numD h
+  have hcl := JsonDoc.serdeNumber_classify h
+  -- an integer literal has exponent 0, so one that fits `u64` (or `i64`) is in range
+  have hfit : JsonDoc.isIntLiteral lex = true → d.mant.natAbs ≤ JsonDoc.u64Max →
+      DecFloat.decToF64 false d.mant.natAbs d.exp ≠ DecFloat.infBits := by
+    intro hint hu
+    obtain ⟨i, _, ⟨_, hd⟩ | ⟨_, hd⟩⟩ := JsonDoc.intLiteral_shape h hint <;>
+      (have he : d.exp = 0 := by rw [hd]
+       rw [he]; exact JsonDoc.u64_finite _ hu)
+  refine ⟨fun u f => ?_, fun m f => ?_, fun b => ?_⟩
+  · rw [hcl]
+    constructor
+    · intro hx
+      split at hx
+      · cases hx
+      · split at hx
+        · rename_i hc
+          simp only [Option.some.injEq, JNum.posInt.injEq] at hx
+          have h0 := hs.2 hc.2.1
+          refine ⟨hc.1, hc.2.1, by omega, by have := hc.2.2; omega, ?_⟩
+          rw [← hx.2, hc.2.1]
+        · split at hx <;> cases hx
+    · rintro ⟨hint, hneg, hm, hu, hf⟩
+      have hu' : d.mant ≤ (JsonDoc.u64Max : Int) := by omega
+      rw [if_neg (hfit hint (by omega)), if_pos ⟨hint, hneg, hu'⟩, hneg, hf]
+      congr 2; omega
+  · rw [hcl]
+    constructor
+    · intro hx
+      split at hx
+      · cases hx
+      · split at hx
+        · cases hx
+        · split at hx
+          · rename_i hc
+            simp only [Option.some.injEq, JNum.negInt.injEq] at hx
+            have hneg : JsonDoc.lexNeg lex = true := by
+              cases hn : JsonDoc.lexNeg lex with
+              | true => rfl
+              | false => have := hs.2 hn; omega
+            refine ⟨hc.1, hx.1, by omega, by omega, ?_⟩
+            rw [← hx.2, hneg]
+          · cases hx
+    · rintro ⟨hint, hm, hlt, hb, hf⟩
+      have hneg : JsonDoc.lexNeg lex = true := by
+        cases hn : JsonDoc.lexNeg lex with
+        | true => rfl
+        | false => have := hs.2 hn; omega
+      have hno : ¬ (JsonDoc.isIntLiteral lex = true ∧ JsonDoc.lexNeg lex = false ∧ d.mant ≤ (JsonDoc.u64Max : Int)) := by
+        rintro ⟨_, hx, _⟩; rw [hneg] at hx; cases hx
+      rw [if_neg (hfit hint (by unfold JsonDoc.u64Max; omega)), if_neg hno, if_pos ⟨hint, by omega, by omega⟩, hneg, hf, hm]
+  · rw [hcl]
+    constructor
+    · intro hx
+      split at hx
+      · cases hx
+      · rename_i hfin
+        split at hx
+        · cases hx
+        · rename_i hc1
+          split at hx
+          · cases hx
+          · rename_i hc2
+            simp only [Option.some.injEq, JNum.float.injEq] at hx
+            exact ⟨hfin, hx.symm, hc1, hc2⟩
+    · rintro ⟨hfin, hb, hc1, hc2⟩
+      rw [if_neg hfin, if_neg hc1, if_neg hc2, hb]
+
+open JsonGrammar in
+/-- **integer_literal_iff.** "integer literal" (`JsonDoc.isIntLiteral`) is: the `number` is an `int` of the grammar with an
+optional minus in front — equivalently, the text contains no decimal point and no exponent marker —, and then it denotes
+that integer with exponent 0. -/
+theorem integer_literal_iff {lex : List Char} {d : Dec} (h : NumD lex d) :
+    (JsonDoc.isIntLiteral lex = true ↔
+      ∃ i, IntPart i ∧ ((lex = i ∧ d = ⟨digitsVal i, 0⟩) ∨ (lex = '-' :: i ∧ d = ⟨-(digitsVal i : Int), 0⟩))) ∧
+    (JsonDoc.isIntLiteral lex = true ↔ ∀ c ∈ lex, c ≠ '.' ∧ c ≠ 'e' ∧ c ≠ 'E') := by
+  refine ⟨⟨JsonDoc.intLiteral_shape h, ?_⟩, JsonDoc.intLiteral_iff_chars h⟩
+  rintro ⟨i, hi, ⟨rfl, _⟩ | ⟨rfl, _⟩⟩
+  · exact (JsonDoc.intLiteral_of_int hi).1
+  · exact (JsonDoc.intLiteral_of_int hi).2.1
+
+open JsonGrammar in
+/-- **int_column_from_literal (M1 b, column level).** What `convert_from_json` (`as_i64`) gives an INT column for a number
+literal in range: the integer `d.mant`, exactly, when the literal is an integer literal with
+`i64::MIN ≤ d.mant ≤ i64::MAX` other than `-0`; NULL for every other number literal — `1.0` and `1e2` (floats for
+serde_json although integral: the sentence's "INT only from integers" does not say whether `1.0` is one; the code says
+it is not), `0.5`, the `u64` band `9223372036854775808 … 18446744073709551615`, anything longer, anything below
+`i64::MIN` — never a rounded, truncated or wrapped value. The literal `-0` also gives NULL (serde_json keeps it as the
+float `-0.0`), although `0` gives 0: reported as D72. -/
+theorem int_column_from_literal {lex : List Char} {d : Dec} (h : NumD lex d) (n : JNum)
+    (hn : JsonDoc.serdeNumber lex = some n) :
+    convertFromJson .int (.num n) =
+      if JsonDoc.isIntLiteral lex = true ∧ -9223372036854775808 ≤ d.mant ∧ d.mant ≤ 9223372036854775807 ∧
+          ¬ (JsonDoc.lexNeg lex = true ∧ d.mant = 0) then .int d.mant
+      else .null :=
+  JsonDoc.int_of_literal h n hn
+
+/-! #### … at the line level: from the bytes of the line to the column (M1 c) -/
+
+/-- what a column of type `ty` (without CONVERT) holds when its path addresses the number literal `lex` denoting `d`:
+REAL — the nearest REAL of `d` (`-0.0` for a zero written with a minus); INT — `d.mant` for an integer literal within
+`i64` other than `-0`, else NULL; every other type — NULL ("NULL when the JSON value has another type") -/
+def numberCell (ty : VType) (lex : List Char) (d : JsonGrammar.Dec) : Value :=
+  match ty with
+  | .real => .real (if JsonDoc.lexNeg lex = true ∧ d.mant = 0 then DecFloat.signMask else JsonDoc.nearestReal d)
+  | .int =>
+    if JsonDoc.isIntLiteral lex = true ∧ -9223372036854775808 ≤ d.mant ∧ d.mant ≤ 9223372036854775807 ∧
+        ¬ (JsonDoc.lexNeg lex = true ∧ d.mant = 0) then .int d.mant
+    else .null
+  | _ => .null
+
+theorem applyTrim_not_text (c : Column) (v : Value) (h : ∀ s, v ≠ .text s) : applyTrim c v = v := by
+  unfold applyTrim
+  split
+  · split
+    · rename_i s; exact absurd rfl (h s)
+    · rfl
+  · rfl
+
+theorem numberCell_not_text (ty : VType) (lex : List Char) (d : JsonGrammar.Dec) : ∀ s, numberCell ty lex d ≠ .text s := by
+  intro s
+  unfold numberCell
+  cases ty <;> simp only [ne_eq, reduceCtorEq, not_false_eq_true]
+  split <;> simp
+
+open JsonGrammar in
+/-- the cell of a number node that is the reading of the literal `lex` -/
+theorem number_cell (c : Column) {lex : List Char} {d : Dec} (h : NumD lex d) (n : JNum)
+    (hn : JsonDoc.serdeNumber lex = some n) :
+    applyTrim c (noCoercion c.type (.num n)) = numberCell c.type lex d := by
+  have hv : noCoercion c.type (.num n) = numberCell c.type lex d := by
+    rw [← convertFromJson_eq_noCoercion]
+    cases hty : c.type with
+    | real => simp only [numberCell]; rw [JsonDoc.real_of_literal h n hn, JsonDoc.litReal_eq h]
+    | int => simp only [numberCell]; exact JsonDoc.int_of_literal h n hn
+    | bool => rfl
+    | text => rfl
+    | array e => rfl
+    | timestamp => rfl
+    | interval => rfl
+  rw [hv, applyTrim_not_text c _ (numberCell_not_text _ _ _)]
+
+open JsonGrammar in
+/-- **json_number_column_from_text (M1 c).** A JSON-path column (no CONVERT) whose path found a number in the document of
+the line: the bytes of the line are the UTF-8 of a `JSON-text` of RFC 8259 with the tree `l` (`JsonTextD cs l.erase`);
+following the column's path through that tree — object members by name, the LAST one of a repeated name, array
+elements by index: `JsonDoc.followL`, on the grammar's denotation `JsonDoc.followV` — ends at a `number` literal `lex`
+denoting `d`; and the column holds `numberCell`: the nearest REAL of `d` (sign of zero from the text) in a REAL column,
+the integer `d.mant` in an INT column exactly for an integer literal within `i64` other than `-0`, NULL otherwise. -/
+theorem json_number_column_from_text (o : Oracles) (d : TableDef) (lo : LineOracle) (c : Column) (a : JsonAccess)
+    (hj : d.anyJson = true) (hp : c.parsing = .json a) (hc : c.options.convert = false)
+    (j : Json) (n : JNum) (hdoc : JsonDoc.docOfLine lo.line = some j) (hv : followPath a.steps j = some (.num n)) :
+    ∃ (cs : List Char) (l : JsonDoc.LVal) (lex : List Char) (dec : Dec),
+      Utf8.decode lo.line = some cs ∧ JsonTextD cs l.erase ∧
+      JsonDoc.followL a.steps l = some (.num lex) ∧ JsonDoc.followV a.steps l.erase = some (.num dec) ∧
+      NumD lex dec ∧ JsonDoc.serdeNumber lex = some n ∧
+      columnValue o c (ParsingInput.new d (JsonDoc.withDoc lo)) = numberCell c.type lex dec := by
+  obtain ⟨cs, l, h1, h2, _, h4⟩ := (JsonDoc.docOfLine_some_iff lo.line j).1 hdoc
+  obtain ⟨lex, hl, hs⟩ := (JsonDoc.followPath_num a.steps l j h4 n).1 hv
+  obtain ⟨dec, hd, _, _⟩ := JsonDoc.serdeNumber_spec lex n hs
+  have hD := numValue_sound hd
+  refine ⟨cs, l, lex, dec, h1, JsonDoc.parseJsonL_grammar h2, hl, ?_, hD, hs, ?_⟩
+  · rw [← JsonDoc.followL_erase, hl]
+    simp only [Option.map_some, JsonDoc.LVal.erase, hd, Option.getD_some]
+  · rw [json_column_from_text_spec o d lo c a hj hp, hdoc]
+    simp only [Option.getD_some, hv, hc, Bool.false_eq_true, if_false]
+    exact number_cell c hD n hs
+
+open JsonGrammar in
+/-- **json_number_column_from_bytes (M1 c, from the text).** The same from the other end: the bytes of the line decode to
+the text `cs`, which the RFC 8259 parser reads as the tree `l` (`parseJsonL cs = some l`, i.e. `JsonTextD cs l.erase`:
+`JsonDoc.parseJsonL_grammar` / `_complete`), nested within serde_json's limit. Then
+* if some number literal of the text is out of the REAL range, the line is not JSON for sqlgrep and EVERY JSON column
+  of it has its DEFAULT (`1e400` anywhere in the line voids the whole line);
+* otherwise a column whose path addresses a number literal `lex` of the text (denoting `dec`) holds
+  `numberCell c.type lex dec`. -/
+theorem json_number_column_from_bytes (o : Oracles) (d : TableDef) (lo : LineOracle) (c : Column) (a : JsonAccess)
+    (hj : d.anyJson = true) (hp : c.parsing = .json a) (hc : c.options.convert = false)
+    (cs : List Char) (l : JsonDoc.LVal) (hd : Utf8.decode lo.line = some cs) (hl : JsonDoc.parseJsonL cs = some l)
+    (hdep : l.depth ≤ JsonDoc.maxDepth) :
+    ((∃ lex ∈ l.lexemes, JsonDoc.serdeNumber lex = none) →
+      columnValue o c (ParsingInput.new d (JsonDoc.withDoc lo)) = applyTrim c c.defaultValue) ∧
+    ((∀ lex ∈ l.lexemes, JsonDoc.serdeNumber lex ≠ none) →
+      ∀ lex dec, JsonDoc.followL a.steps l = some (.num lex) → NumD lex dec →
+        columnValue o c (ParsingInput.new d (JsonDoc.withDoc lo)) = numberCell c.type lex dec) := by
+  have habs : followPath a.steps (Option.getD none Json.null) = none := by
+    cases a with
+    | last s => cases s <;> rfl
+    | cons s inner => cases s <;> rfl
+  constructor
+  · intro hov
+    have hnone : JsonDoc.docOfLine lo.line = none := by
+      unfold JsonDoc.docOfLine JsonDoc.docOfChars
+      rw [hd]; simp only; rw [hl]; simp only; rw [if_pos hdep]
+      exact (JsonDoc.toJson_none_iff l).2 hov
+    rw [json_column_from_text_spec o d lo c a hj hp, hnone, habs]
+  · intro hin lex dec hfl hD
+    cases hjs : JsonDoc.toJson l with
+    | none =>
+      obtain ⟨lx, hlx, hnx⟩ := (JsonDoc.toJson_none_iff l).1 hjs
+      exact absurd hnx (hin lx hlx)
+    | some j =>
+      have hdoc : JsonDoc.docOfLine lo.line = some j :=
+        (JsonDoc.docOfLine_some_iff lo.line j).2 ⟨cs, l, hd, hl, hdep, hjs⟩
+      have hmem : lex ∈ l.lexemes := JsonDoc.followL_lexeme a.steps l lex hfl
+      cases hs : JsonDoc.serdeNumber lex with
+      | none => exact absurd hs (hin lex hmem)
+      | some n =>
+        have hv : followPath a.steps j = some (.num n) := (JsonDoc.followPath_num a.steps l j hjs n).2 ⟨lex, hfl, hs⟩
+        rw [json_column_from_text_spec o d lo c a hj hp, hdoc]
+        simp only [Option.getD_some, hv, hc, Bool.false_eq_true, if_false]
+        exact number_cell c hD n hs
+
+/-- a line with a number literal out of range anywhere gives every JSON column its DEFAULT (corollary, spelled out) -/
+theorem out_of_range_literal_line_is_default (o : Oracles) (d : TableDef) (lo : LineOracle) (c : Column) (a : JsonAccess)
+    (hj : d.anyJson = true) (hp : c.parsing = .json a)
+    (cs : List Char) (l : JsonDoc.LVal) (hd : Utf8.decode lo.line = some cs) (hl : JsonDoc.parseJsonL cs = some l)
+    (lex : List Char) (hmem : lex ∈ l.lexemes) (hov : JsonDoc.serdeNumber lex = none) :
+    columnValue o c (ParsingInput.new d (JsonDoc.withDoc lo)) = applyTrim c c.defaultValue := by
+  have hnone : JsonDoc.docOfLine lo.line = none := by
+    unfold JsonDoc.docOfLine JsonDoc.docOfChars
+    rw [hd]; simp only; rw [hl]; simp only
+    split
+    · exact (JsonDoc.toJson_none_iff l).2 ⟨lex, hmem, hov⟩
+    · rfl
+  rw [json_column_from_text_spec o d lo c a hj hp, hnone]
+  have : followPath a.steps (Option.getD none Json.null) = none := by
+    cases a with
+    | last s => cases s <;> rfl
+    | cons s inner => cases s <;> rfl
+  rw [this]
+
 /-! ### non-vacuity -/
 
 /-- `{"a": {"b": [10, "x"]}, "n": 18446744073709551616}` as serde_json presents it -/
@@ -373,5 +681,106 @@ answered `…6d` and `0x0010000000000000`) -/
 example : ((JsonDoc.docOfLine ("{\"x\":239.21e-27}".toUTF8.toList.map (·.toNat))).bind (followPath [.field [120]])).bind Json.asF64
     = some 0x3ad2820acce1ed6c := by decide +kernel
 example : (JsonDoc.docOfLine ("2.2250738585072011e-308".toUTF8.toList.map (·.toNat))).bind Json.asF64 = some 0x000fffffffffffff := by decide +kernel
+
+/-! #### number literals (M1, L1): the literals of the audit, evaluated by the kernel -/
+
+section literals
+open JsonGrammar JsonDoc
+
+/-- what `serdeNumber` makes of a literal, flattened for comparison: kind, integer payload, REAL bits -/
+def litView (s : String) : Option (String × Int × Nat) :=
+  match serdeNumber s.toList with
+  | some (.posInt u f) => some ("PosInt", (u : Int), f)
+  | some (.negInt m f) => some ("NegInt", m, f)
+  | some (.float b) => some ("Float", 0, b)
+  | none => none
+
+-- the denotations (hypothesis `NumD lex d` of every theorem of this section), by the complete recogniser
+example : NumD "18446744073709551615".toList ⟨18446744073709551615, 0⟩ := numValue_sound (by decide +kernel)
+example : NumD "-9223372036854775809".toList ⟨-9223372036854775809, 0⟩ := numValue_sound (by decide +kernel)
+example : NumD "1e2".toList ⟨1, 2⟩ := numValue_sound (by decide +kernel)
+example : NumD "1.0".toList ⟨10, -1⟩ := numValue_sound (by decide +kernel)
+example : NumD "0.1".toList ⟨1, -1⟩ := numValue_sound (by decide +kernel)
+example : NumD "-0".toList ⟨0, 0⟩ ∧ NumD "-0.0".toList ⟨0, -1⟩ := ⟨numValue_sound (by decide +kernel), numValue_sound (by decide +kernel)⟩
+example : NumD "1e400".toList ⟨1, 400⟩ := numValue_sound (by decide +kernel)
+
+-- integer literals: `u64::MAX` is a `PosInt` (REAL 2^64), one more is a float; `i64::MIN` is a `NegInt`, one less a float
+example : litView "18446744073709551615" = some ("PosInt", 18446744073709551615, 0x43f0000000000000) := by decide +kernel
+example : litView "18446744073709551616" = some ("Float", 0, 0x43f0000000000000) := by decide +kernel
+example : litView "9223372036854775808" = some ("PosInt", 9223372036854775808, 0x43e0000000000000) := by decide +kernel
+example : litView "9223372036854775807" = some ("PosInt", 9223372036854775807, 0x43e0000000000000) := by decide +kernel
+example : litView "-9223372036854775808" = some ("NegInt", -9223372036854775808, 0xc3e0000000000000) := by decide +kernel
+example : litView "-9223372036854775809" = some ("Float", 0, 0xc3e0000000000000) := by decide +kernel
+-- a fraction or an exponent makes a float, integral value or not
+example : litView "1e2" = some ("Float", 0, 0x4059000000000000) := by decide +kernel       -- 100.0
+example : litView "1.0" = some ("Float", 0, 0x3ff0000000000000) := by decide +kernel
+example : litView "0.1" = some ("Float", 0, 0x3fb999999999999a) := by decide +kernel
+-- the sign of zero: `-0` and `-0.0` are the float -0.0, `0` is the integer 0, `0.0` the float +0.0
+example : litView "-0" = some ("Float", 0, 0x8000000000000000) := by decide +kernel
+example : litView "-0.0" = some ("Float", 0, 0x8000000000000000) := by decide +kernel
+example : litView "0" = some ("PosInt", 0, 0) ∧ litView "0.0" = some ("Float", 0, 0) := by decide +kernel
+-- out of range: no number; the largest finite REAL and the last literal below the overflow threshold are in range
+example : litView "1e400" = none ∧ litView "1.7976931348623159e308" = none := by decide +kernel
+example : litView "1.7976931348623157e308" = some ("Float", 0, 0x7fefffffffffffff)
+    ∧ litView "1.7976931348623158e308" = some ("Float", 0, 0x7fefffffffffffff) := by decide +kernel
+-- the integer-literal test
+example : isIntLiteral "-12".toList = true ∧ isIntLiteral "1e2".toList = false ∧ isIntLiteral "1.0".toList = false := by decide
+
+-- the cells (`numberCell`, the right-hand side of `json_number_column_from_text`), flattened for comparison
+def cellView : Value → Option (String × Int)
+  | .int n => some ("INT", n)
+  | .real b => some ("REAL", (b : Int))
+  | .null => some ("NULL", 0)
+  | _ => none
+
+example : cellView (numberCell .int "9223372036854775807".toList ⟨9223372036854775807, 0⟩) = some ("INT", 9223372036854775807) := by decide +kernel
+example : cellView (numberCell .int "-9223372036854775808".toList ⟨-9223372036854775808, 0⟩) = some ("INT", -9223372036854775808) := by decide +kernel
+example : cellView (numberCell .int "9223372036854775808".toList ⟨9223372036854775808, 0⟩) = some ("NULL", 0) := by decide +kernel
+example : cellView (numberCell .int "18446744073709551615".toList ⟨18446744073709551615, 0⟩) = some ("NULL", 0) := by decide +kernel
+example : cellView (numberCell .int "-9223372036854775809".toList ⟨-9223372036854775809, 0⟩) = some ("NULL", 0) := by decide +kernel
+example : cellView (numberCell .int "1.0".toList ⟨10, -1⟩) = some ("NULL", 0)
+    ∧ cellView (numberCell .int "1e2".toList ⟨1, 2⟩) = some ("NULL", 0) := by decide +kernel
+example : cellView (numberCell .int "0".toList ⟨0, 0⟩) = some ("INT", 0)
+    ∧ cellView (numberCell .int "-0".toList ⟨0, 0⟩) = some ("NULL", 0) := by decide +kernel   -- D72
+example : cellView (numberCell .real "-0".toList ⟨0, 0⟩) = some ("REAL", 0x8000000000000000)
+    ∧ cellView (numberCell .real "-0.0".toList ⟨0, -1⟩) = some ("REAL", 0x8000000000000000)
+    ∧ cellView (numberCell .real "0.0".toList ⟨0, -1⟩) = some ("REAL", 0) := by decide +kernel
+example : cellView (numberCell .real "0.1".toList ⟨1, -1⟩) = some ("REAL", 0x3fb999999999999a)
+    ∧ cellView (numberCell .real "18446744073709551615".toList ⟨18446744073709551615, 0⟩) = some ("REAL", 0x43f0000000000000)
+    ∧ cellView (numberCell .real "-9223372036854775809".toList ⟨-9223372036854775809, 0⟩) = some ("REAL", 0xc3e0000000000000) := by
+  decide +kernel
+example : cellView (numberCell .text "1".toList ⟨1, 0⟩) = some ("NULL", 0)
+    ∧ cellView (numberCell .bool "1".toList ⟨1, 0⟩) = some ("NULL", 0) := by decide +kernel
+
+/-- the line `{"a":[1.0,-0,18446744073709551615],"a":[1e2,-0.0,9223372036854775808,-9223372036854775809]}`: a repeated key -/
+def exLine3 : List Nat :=
+  "{\"a\":[1.0,-0,18446744073709551615],\"a\":[1e2,-0.0,9223372036854775808,-9223372036854775809]}".toUTF8.toList.map (·.toNat)
+
+/-- the literal a path addresses in the text of `exLine3` -/
+def litAt (steps : List JsonStep) : Option (List Char) :=
+  match ((Utf8.decode exLine3).bind parseJsonL).bind (followL steps) with
+  | some (.num lex) => some lex
+  | _ => none
+
+-- hypotheses of `json_number_column_from_bytes` on it: the text decodes, parses, every literal is in range, and the
+-- path `a[0]` addresses the literal `1e2` of the LAST member named `a`
+example : ((Utf8.decode exLine3).bind parseJsonL).isSome = true := by decide +kernel
+example : (match (Utf8.decode exLine3).bind parseJsonL with
+    | some l => decide (l.depth ≤ maxDepth) && l.lexemes.all (fun lex => (serdeNumber lex).isSome) | none => false) = true := by
+  decide +kernel
+example : litAt [.field [97], .index 0] = some "1e2".toList ∧ litAt [.field [97], .index 2] = some "9223372036854775808".toList
+    ∧ litAt [.field [97], .index 3] = some "-9223372036854775809".toList ∧ litAt [.field [97], .index 4] = none := by decide +kernel
+-- … and of `json_number_column_from_text`: the document has numbers there, with the values the theorems predict
+example : ((docOfLine exLine3).bind (followPath [.field [97], .index 0])).bind Json.asI64 = none
+    ∧ ((docOfLine exLine3).bind (followPath [.field [97], .index 0])).bind Json.asF64 = some 0x4059000000000000
+    ∧ ((docOfLine exLine3).bind (followPath [.field [97], .index 1])).bind Json.asF64 = some 0x8000000000000000
+    ∧ ((docOfLine exLine3).bind (followPath [.field [97], .index 2])).bind Json.asI64 = none
+    ∧ ((docOfLine exLine3).bind (followPath [.field [97], .index 2])).bind Json.asF64 = some 0x43e0000000000000
+    ∧ ((docOfLine exLine3).bind (followPath [.field [97], .index 3])).bind Json.asF64 = some 0xc3e0000000000000 := by
+  decide +kernel
+-- a literal out of range anywhere voids the line (`out_of_range_literal_line_is_default`)
+example : docOfLine ("{\"a\":1,\"b\":[2e308]}".toUTF8.toList.map (·.toNat)) = none := by decide +kernel
+
+end literals
 
 end Sqlgrep.Props.C02
